@@ -116,17 +116,23 @@ def copy_is_fresh(mod: ast.Module) -> bool:
 
 
 def generate() -> dict:
-    mod = parse("src/spox/_public.py")
-    fn = next(f for f in mod.body if isinstance(f, ast.FunctionDef) and f.name == "inline")
-    param = fn.args.args[0].arg
-    stmts = []
-    for s in fn.body:
-        stmts.append(classify(s, param, _loop_aliases(s, param)))
-    uses_deepcopy_directly = any(
-        isinstance(s, ast.Assign) and _is_copy_call(s.value, param) and dotted(s.value.func) in ("copy.deepcopy", "deepcopy")
-        for s in fn.body
-    )
-    fresh = copy_is_fresh(mod) or uses_deepcopy_directly
+    note = ""
+    try:
+        mod = parse("src/spox/_public.py")
+        fn = next((f for f in mod.body if isinstance(f, ast.FunctionDef) and f.name == "inline"), None)
+        if fn is None or not fn.args.args:
+            raise LookupError("no function `inline(model)` in src/spox/_public.py")
+        param = fn.args.args[0].arg
+        stmts = []
+        for s in fn.body:
+            stmts.append(classify(s, param, _loop_aliases(s, param)))
+        uses_deepcopy_directly = any(
+            isinstance(s, ast.Assign) and _is_copy_call(s.value, param) and dotted(s.value.func) in ("copy.deepcopy", "deepcopy")
+            for s in fn.body
+        )
+        fresh = copy_is_fresh(mod) or uses_deepcopy_directly
+    except Exception as e:  # noqa: BLE001 - unknown shape: an opaque mutation, the obligation fails
+        stmts, fresh, note = ["mutate"], False, f"{type(e).__name__}: {e}"
     # the nested callback must not rebind / mutate through the caller's object either: it only sees the local
     text = HEADER.format(src="src/spox/_public.py", tool="translator/inline_facts.py") + (
         "\nimport SpoxModel.Model.Inline\n\nnamespace Generated.InlineFacts\nopen Inline\n\n"
@@ -137,7 +143,7 @@ def generate() -> dict:
         "end Generated.InlineFacts\n"
     )
     write_if_changed(GEN / "InlineFacts.lean", text)
-    return {"stmts": stmts, "copyFresh": fresh}
+    return {"stmts": stmts, "copyFresh": fresh, "note": note}
 
 
 if __name__ == "__main__":
